@@ -426,8 +426,18 @@ def setup():
     log("setup done in %.0fs" % (time.time() - t0))
     return 0
 
+def repo_lock():
+    """checks share /repo; tools/seedrun.sh (which temporarily patches /repo) holds this lock exclusively"""
+    if os.environ.get("VERIF_REPO_LOCKED"):
+        return None
+    os.makedirs(BUILD, exist_ok=True)
+    f = open(os.path.join(BUILD, "repo.lock"), "w")
+    fcntl.flock(f, fcntl.LOCK_SH)
+    return f
+
 if __name__ == "__main__":
     sys.path.insert(0, ROOT)
+    _rl = repo_lock()
     ap = argparse.ArgumentParser()
     ap.add_argument("id")
     ap.add_argument("--tier", default=os.environ.get("VERIF_TIER", "quick"), choices=["quick", "thorough"])
